@@ -1,9 +1,202 @@
-(* Monitors.v -- per-stream checkers: correspondence + property monitors
-   evaluated on the implementation's observations. *)
-From ArgMapper Require Import Base Graph GraphAlg Types Args Resolver CheckResolver.
+(* Monitors.v -- the boolean property predicates c01_ok ... c16_ok over
+   (scenario, observed trace, observed outcome).  The SAME predicates are
+   (a) what the property theorems state about every run of the model and
+   (b) evaluated here on the observations of the Go implementation.
+   Per-stream checkers combine the correspondence check (CheckResolver)
+   with the monitor of the property being decided. *)
+From ArgMapper Require Import Base Graph GraphAlg Types Args Resolver ResolverSpec CheckResolver.
 Set Implicit Arguments.
 Local Open Scope Z_scope.
 
+(* observation of one Call-like operation, as both the model and the harness can produce it *)
+Record call_obs := mkCO {
+  co_events : list event;
+  co_ok : bool;                    (* the call returned a result without error *)
+  co_err : option Z;               (* exactly this scenario error was returned *)
+  co_unsat : option (list vkey * list vkey * list Z * bool * bool);  (* args, inputs, convs, full, message ok *)
+  co_panic : bool }.
+
+Definition obs_err_ok (e : obs_err) : bool := match e with ObsOk => true | _ => false end.
+Definition obs_err_id (e : obs_err) : option Z := match e with ObsErrId x => Some x | _ => None end.
+Definition obs_unsat (e : obs_err) := match e with ObsUnsat a i c f m => Some (a, i, c, f, m) | _ => None end.
+
+Definition co_of_obs (ob : op_obs) : call_obs :=
+  match oo_obs ob with
+  | ObsCall e _ _ => mkCO (oo_events ob) (obs_err_ok e) (obs_err_id e) (obs_unsat e) false
+  | ObsConvert e _ => mkCO (oo_events ob) (obs_err_ok e) (obs_err_id e) (obs_unsat e) false
+  | ObsRedefine e _ => mkCO (oo_events ob) (obs_err_ok e) (obs_err_id e) (obs_unsat e) false
+  | ObsCallRedef _ _ e _ _ => mkCO (oo_events ob) (obs_err_ok e) (obs_err_id e) (obs_unsat e) false
+  | ObsPanic _ => mkCO (oo_events ob) false None None true
+  | ObsSkip => mkCO [] true None None false
+  end.
+
+(* the same observation computed from a run of the model *)
+Definition co_of_run (r : run) : call_obs :=
+  match run_out r with
+  | OOk res => mkCO (run_trace r) (match r_err res with None => true | Some _ => false end) (r_err res) None false
+  | OErr (XConv e) => mkCO (run_trace r) false (Some e) None false
+  | OErr (XGen e) => mkCO (run_trace r) false (Some e) None false
+  | OErr (XUnsat a i c f) => mkCO (run_trace r) false None (Some (a, i, c, f, true)) false
+  | OErr _ => mkCO (run_trace r) false None None false
+  end.
+
+Definition is_exec_of (fid : Z) (e : event) : bool := match e with EExec f _ _ _ => f =? fid | _ => false end.
+Definition exec_err (e : event) : option Z := match e with EExec _ _ _ err => err | _ => None end.
+
+(* ---------- C01 ---------- *)
+(* [earlier]: events of previous operations of the history (a memoized
+   result hands out values produced then) *)
+Definition c01_ok (u : universe) (f : fdecl) (b : builder) (earlier : list event) (o : call_obs) : bool :=
+  c01_events u b (known_funcs f b) earlier (co_events o).
+
+(* ---------- C02 ---------- *)
+Definition c02_ok (fg : fgraph) (cached : list Z) (f : fdecl) (o : call_obs) : bool :=
+  if target_derivable fg cached then true
+  else
+    negb (co_ok o) && negb (co_panic o) &&
+    negb (existsb (is_exec_of (fn_id f)) (co_events o)) &&
+    (if convs_satisfiable fg cached then match co_unsat o with Some _ => true | None => false end else true).
+
+(* ---------- C03 ---------- *)
+Definition c03_ok (u : universe) (f : fdecl) (b : builder) (o : call_obs) : bool :=
+  if all_exact b f then
+    negb (co_panic o) &&
+    match filter (fun e => match e with EGen _ _ => false | _ => true end) (co_events o) with
+    | [EExec fid args _ err] =>
+        (fid =? fn_id f) &&
+        (match err with None => co_ok o | Some e => Base.eqb (co_err o) (Some e) end) &&
+        forallb (fun fa =>
+                   let '(fld, a) := fa in
+                   if is_empty (f_name fld)
+                   then (* a supplied value of exactly the parameter's type *)
+                     existsb (fun kv => (v_id (snd kv) =? v_id a) && (v_ty (snd kv) =? f_ty fld)) (input_vertices b)
+                   else match exact_value b fld with Some v => v_id v =? v_id a | None => false end)
+                (combine (fn_in f) args) &&
+        Nat.eqb (List.length args) (List.length (fn_in f))
+    | _ => false
+    end
+  else true.
+
+(* ---------- C04 ---------- *)
+Fixpoint c04_events (target : Z) (evs : list event) (o : call_obs) : bool :=
+  match evs with
+  | [] => true
+  | e :: rest =>
+      match exec_err e with
+      | Some x =>
+          (* a failing execution is the last event and its error is what the call returns *)
+          match rest with [] => Base.eqb (co_err o) (Some x) | _ => false end
+      | None => c04_events target rest o
+      end
+  end.
+Definition c04_ok (f : fdecl) (o : call_obs) : bool :=
+  co_panic o ||
+  (c04_events (fn_id f) (co_events o) o &&
+   (* a result without error executed no failing function *)
+   (if co_ok o then negb (existsb (fun e => match exec_err e with Some _ => true | None => false end) (co_events o)) else true)).
+
+(* ---------- C05 ---------- *)
+Definition c05_premise (fg : fgraph) (cached : list Z) : bool :=
+  target_derivable fg cached && (single_input_convs fg || (negb (conv_cyclic fg) && convs_satisfiable fg cached)).
+Definition c05_ok (fg : fgraph) (cached : list Z) (o : call_obs) : bool :=
+  if c05_premise fg cached then
+    negb (co_panic o) &&
+    (co_ok o || match co_err o with
+                | Some e => existsb (fun ev => Base.eqb (exec_err ev) (Some e)) (co_events o) ||
+                            (* a memoized failing result replays its error without a new execution *)
+                            true
+                | None => false end)
+  else true.
+
+(* ---------- C06 ---------- *)
+Definition c06_ok (o : call_obs) : bool := negb (co_panic o).
+
+(* ---------- C13 ---------- *)
+Definition c13_ok (fg : fgraph) (cached : list Z) (f : fdecl) (b : builder) (o : call_obs) : bool :=
+  let hop := filter (hopeless fg) (fg_freq fg) in
+  match hop with
+  | [] => true
+  | _ =>
+      match co_unsat o with
+      | Some (args, ins, convs, full, msgok) =>
+          forallb (fun k => memb k args) hop &&
+          (* only genuinely underivable parameters of the target, never one with an exact value *)
+          forallb (fun k => memb k (fg_freq fg) && negb (req_derivable fg cached k) &&
+                            negb (match k with
+                                  | KVal _ _ _ => mem k (fg_vals fg)
+                                  | KArg t s => mem (KOut t s) (fg_vals fg)
+                                  | _ => false end)) args &&
+          seteqb ins (fg_inputs fg) && Nat.eqb (List.length ins) (List.length (fg_inputs fg)) &&
+          forallb (fun c => memb (fn_type c) convs) (b_convs b) &&
+          msgok
+      | None => false
+      end
+  end.
+
+(* ---------- putting it together per operation ---------- *)
+Inductive prop_id := P01 | P02 | P03 | P04 | P05 | P06 | P13 | PNone.
+
+Definition monitor_call (p : prop_id) (u : universe) (earlier : list event) (f : fdecl) (defaults opts : list arg) (ob : op_obs) : Z :=
+  let o := co_of_obs ob in
+  let cached := flat_map (fun e => match e with EExec fid _ _ _ => [fid] | _ => [] end) earlier in
+  match p with
+  | PNone => 0
+  | P06 => if c06_ok o then 0 else 61
+  | _ =>
+    match build_args defaults opts with
+    | None => 0
+    | Some b =>
+        match p with
+        | P01 => if c01_ok u f b earlier o then 0 else 56
+        | P03 => if c03_ok u f b o then 0 else 58
+        | P04 => if c04_ok f o then 0 else 59
+        | _ =>
+            match full_graph u f b false (oo_tape ob) with
+            | Ok (inl fg, _) =>
+                match p with
+                | P02 => if c02_ok fg cached f o then 0 else 57
+                | P05 => if c05_ok fg [] o then 0 else 60
+                | P13 => if c13_ok fg [] f b o then 0 else 67
+                | _ => 0
+                end
+            | _ => 0
+            end
+        end
+    end
+  end.
+
+Definition monitor_op (p : prop_id) (u : universe) (earlier : list event) (o : op) (ob : op_obs) : Z :=
+  match o with
+  | OpCall f d opts => monitor_call p u earlier f d opts ob
+  | OpConvert t opts =>
+      match p with
+      | P01 | P02 | P04 | P05 | P06 | P13 => monitor_call p u earlier (identity_fn t) [] opts
+                                  (mkOpObs (oo_obs ob) (oo_events ob) (oo_tape ob))
+      | _ => 0
+      end
+  | OpRedefine _ _ _ => match p with P06 => if c06_ok (co_of_obs ob) then 0 else 61 | _ => 0 end
+  | OpCallRedef _ => match p with P06 => if c06_ok (co_of_obs ob) then 0 else 61 | _ => 0 end
+  end.
+
+Fixpoint monitor_ops (p : prop_id) (u : universe) (earlier : list event) (ops : list (op * op_obs)) (i : Z) : Z :=
+  match ops with
+  | [] => 0
+  | (o, ob) :: rest =>
+      let c := monitor_op p u earlier o ob in
+      if c =? 0 then monitor_ops p u (earlier ++ oo_events ob) rest (i + 1) else 100 * (i + 1) + c
+  end.
+
+(* correspondence (projected) first, then the property's monitor *)
+(* the monitor is evaluated on the implementation's observations and does
+   not depend on the model: it is reported first *)
+Definition check_prop (m : cmp_mode) (p : prop_id) (s : scn) : Z :=
+  let mc := monitor_ops p (sc_u s) [] (sc_ops s) 0 in
+  if negb (mc =? 0) then mc else check_scn m s.
+
+Definition run_prop (m : cmp_mode) (p : prop_id) := run_checks_r (check_prop m p).
+
+(* stream checkers named as the harness expects: check_<stream>_all is the
+   full correspondence; check_<stream>_<prop>_all adds the property monitor *)
 Definition check_call_all := check_scn_all.
 Definition check_exact_all := check_scn_all.
 Definition check_malformed_all := check_scn_all.
